@@ -226,5 +226,46 @@ func c16Sessions(c *core.Collector, x *Ctx) {
 			c.Sample(map[string]any{"dialect": p.Dialect, "files": p.Files, "partition": p.Mode})
 		}
 	})
+	// up to 255 gaps in one file, through the real connection loop
+	for _, gaps := range []int{100, 126, 127, 128, 200, 255} {
+		for d := 0; d < 5; d++ {
+			g := gen.G{Rand: core.NewRand(c.Seed, "c16big", uint64(gaps*8+d))}
+			size := 2*gaps + 1
+			p := &attPlan{Kind: "att", Gen: fmt.Sprintf("%d single-byte gaps", gaps), Dialect: int(gen.Dialects[d]), Phone: "013800003333", Serial0: g.U16(),
+				TermID: core.Hex([]byte("T2")), AlarmID: core.Hex([]byte("many-gaps"))}
+			f := attFile{Name: core.Hex([]byte("gaps.bin")), Size: size, ContSd: g.U64(), Type: byte(d)}
+			var recv, miss [][2]int
+			for off := 0; off < size; off++ {
+				if off%2 == 0 {
+					recv = append(recv, [2]int{off, 1})
+				} else {
+					miss = append(miss, [2]int{off, 1})
+				}
+			}
+			pm := g.Perm(len(recv))
+			for _, q := range pm {
+				f.Chunks = append(f.Chunks, recv[q])
+			}
+			f.Resend = miss
+			p.Files = []attFile{f}
+			attPartition(g, p, d%3)
+			c.Eval()
+			var viol [][2]string
+			var incon bool
+			if guard(c, func() any { return p }, func() { viol, incon = attRun(p, false, "") }) {
+				continue
+			}
+			if incon {
+				c.Inconclusive()
+				continue
+			}
+			c.Count("sessions_with_many_gaps", 1)
+			c.NonTrivial(core.HashString(fmt.Sprintf("manygaps/%d/%d", gaps, d)))
+			for _, v := range viol {
+				c.Violate(v[0], v[1]+" ["+p.Gen+"]", map[string]any{"gen": p.Gen, "dialect": p.Dialect, "size": size})
+			}
+		}
+	}
 	c.Floor("sessions_with_gaps", 300)
+	c.Floor("sessions_with_many_gaps", 10)
 }
